@@ -68,6 +68,7 @@ def evaluate(desc, res):
 
     inputs = set(inputs_of(desc))
     okn = allowed_new(desc)
+    fixers = sorted({rec[3].split()[1] for rec in res["records"] if rec[0] == "out" and rec[2] == "sim" and rec[3].startswith("fixer ")})
     for o in runner.ops_of(res):
         if o["kind"] in MUTATING and o["kind"] != "close":
             p = os.path.normpath(o["path"])
@@ -88,6 +89,9 @@ def evaluate(desc, res):
     for p in res["after"]:
         if p not in inputs and p not in okn:
             add("stray-file-created", p, {"op": "present-at-end"})
+    for v in V:
+        v["observed"]["fixers"] = fixers
+        v["observed"]["member"] = (desc.get("meta") or {}).get("class")
     return V
 
 
@@ -130,7 +134,7 @@ def gen_b(seed):
     for i in range(k):
         name = "src/f%d.vhd" % i
         label, data = workload.pick_bytes(rng, rng.choice(["small"] * 6 + ["mid"] * 3 + ["big"]))
-        tags, data = workload.perturb_bytes(rng, data)
+        tags, data = workload.perturb_bytes(rng, data, noise=0.6)
         sandbox.append(workload.sb_entry(name, data, rng.choice(workload.MODES)))
         names.append(name)
         meta.append({"path": name, "from": label, "tags": tags, "size": len(data), "digest": wire.digest(data)})
@@ -181,6 +185,16 @@ def make_clean(rng, env, style):
             return None
         streams = runner.stream_of(rc)[0]
         if not rc["end"]["exit"] and streams["o"].strip() == "" and streams["e"].strip() == "":
+            if rng.random() < 0.5:
+                # the same clean design with layout noise inside a code-tag region: still reported
+                # violation-free (verified by is_clean in judge), so still "no fixable violation"
+                nl = b"\r\n" if b"\r\n" in new else b"\n"
+                noisy = b"-- vsg_off" + nl + workload.layout_noise(rng, new, 0.3) + (b"" if new.endswith(nl) else nl) + b"-- vsg_on" + nl
+                c2 = _desc(0, rng, [workload.sb_entry(name, noisy)], ["-p", "1", "-ap", "-of", "syntastic"] + opts + ["-f", name], {})
+                r2 = env.run(c2)
+                s2 = runner.stream_of(r2)[0]
+                if r2["status"] == "exit" and not r2["end"]["exit"] and s2["o"].strip() == "" and s2["e"].strip() == "":
+                    return label + "+code-tagged-noise", noisy
             return label, new
         if new == data:
             return None
@@ -254,6 +268,7 @@ def member(desc, env):
 def judge(desc, env):
     if member(desc, env) is None:
         return None, None
+    desc = dict(desc, probe_fixers=True)
     res = env.run(desc)
     if res["status"] in ("timeout", "harness-error"):
         return res["status"], res
